@@ -111,7 +111,100 @@ func c20Run(c *mc.Ctx, k c20Case) {
 	}
 }
 
+// c20Stack: the argument lives in a local array of the callee; the returned string must stay valid after the
+// frame is gone and the stack has been reused (the conversion must let its argument escape).
+//
+//go:noinline
+func c20StackMake(seed byte, n int) string {
+	var scratch [24]byte
+	for i := range scratch {
+		scratch[i] = seed + byte(i)
+	}
+	return unsafex.BinaryToString(scratch[:n])
+}
+
+//go:noinline
+func c20StackMake2(seed byte, n int) string {
+	b := make([]byte, 0, 32)
+	for i := 0; i < n; i++ {
+		b = append(b, seed+byte(i))
+	}
+	return unsafex.BinaryToString(b)
+}
+
+//go:noinline
+func c20Clobber(depth int) int {
+	var junk [256]byte
+	for i := range junk {
+		junk[i] = byte(0xA0 + depth)
+	}
+	if depth > 0 {
+		return int(junk[depth]) + c20Clobber(depth-1)
+	}
+	return int(junk[0])
+}
+
+func c20Stack(c *mc.Ctx, k c20Case) {
+	c.Eval(1)
+	variant := os.Getenv("VERIF_C20_VARIANT")
+	if variant == "" {
+		variant = "go121"
+	}
+	for _, mk := range []func(byte, int) string{c20StackMake, c20StackMake2} {
+		s := mk(byte(k.I), k.N)
+		c20Clobber(8)
+		ok := len(s) == k.N
+		for i := 0; ok && i < len(s); i++ {
+			ok = s[i] == byte(k.I)+byte(i)
+		}
+		if !ok {
+			c.Violate("conv", fmt.Sprintf("C20|%s|b2s|dangling-stack-memory", variant), fmt.Sprintf("[%s] BinaryToString of a slice of a callee-local buffer (%d bytes) returned a string whose content changed after the callee returned and the stack was reused: %q", variant, k.N, s), k)
+			return
+		}
+	}
+}
+
+// c20Huge: lengths at and beyond 2^32 (untouched memory: virtual only).
+func c20Huge(c *mc.Ctx, k c20Case) {
+	c.Eval(1)
+	variant := os.Getenv("VERIF_C20_VARIANT")
+	if variant == "" {
+		variant = "go121"
+	}
+	n := 1<<32 + 5
+	big := make([]byte, n)
+	big[0], big[1<<32], big[n-1] = 'a', 'b', 'c'
+	for _, l := range []int{1 << 32, n} {
+		s := unsafex.BinaryToString(big[:l])
+		b := unsafex.StringToBinary(s)
+		if len(s) != l || len(b) != l || cap(b) != l || s[0] != 'a' || b[1<<32-1] != 0 || (l == n && (b[n-1] != 'c' || s[1<<32] != 'b')) {
+			c.Violate("conv", fmt.Sprintf("C20|%s|huge|len", variant), fmt.Sprintf("[%s] a %d-byte value converts to a string of length %d and back to a slice of len %d cap %d", variant, l, len(s), len(b), cap(b)), k)
+			return
+		}
+	}
+}
+
 func c20Enumerate(c *mc.Ctx) {
+	guard := func(k c20Case, f func(*mc.Ctx, c20Case)) {
+		if pi := mc.Try(func() { f(c, k) }); pi != nil {
+			c.Violate("conv", "C20|"+k.Kind+"|panic", fmt.Sprintf("%s case %+v: panic: %s at %s", k.Kind, k, pi.Msg, pi.Frame), k)
+		}
+	}
+	for n := 0; n <= 24; n++ {
+		guard(c20Case{Kind: "stack", N: n, I: 3}, c20Stack)
+	}
+	guard(c20Case{Kind: "huge"}, c20Huge)
+	// sub-slices with a lot of spare capacity (a conversion that copies "to avoid pinning big buffers" breaks sharing)
+	for _, n := range []int{8192, 65536} {
+		for _, i := range []int{0, 1} {
+			for _, l := range []int{0, 1, 2, 127, 128, 129, n/64 - 1, n / 64, n/64 + 1} {
+				for _, k := range []int{i + l, n} {
+					c20Run(c, c20Case{Kind: "b2s", N: n, I: i, J: i + l, K: k})
+				}
+				c20Run(c, c20Case{Kind: "s2b", N: n, I: i, J: i + l})
+			}
+		}
+	}
 	c20Run(c, c20Case{Kind: "nil-b2s"})
 	c20Run(c, c20Case{Kind: "empty-s2b"})
 	c.Sample("b2s", c20Case{Kind: "b2s", N: 9, I: 2, J: 5, K: 7})
@@ -132,11 +225,22 @@ func c20Enumerate(c *mc.Ctx) {
 func init() {
 	Register(&Check{
 		ID: "C20", Level: "exploration", Shards: 1,
-		Rule:        "every sub-slice b[i:j:k] of backing arrays of length 0..9 (all amounts of spare capacity, empty non-nil, nil) and every substring s[i:j] of heap-backed strings of length 0..9, content with NUL and non-UTF-8 bytes; both build variants of package unsafex; a case is non-trivial when the value is non-empty (pointer identity is then checked)",
+		Rule:        "every sub-slice b[i:j:k] of backing arrays of length 0..9 (all amounts of spare capacity, empty non-nil, nil) and every substring s[i:j] of heap-backed strings of length 0..9, content with NUL and non-UTF-8 bytes; sub-slices of 8 KiB / 64 KiB arrays around len = cap/64; slices of callee-local buffers of every length 0..24 (result must survive the callee's frame); lengths 2^32 and 2^32+5; both build variants of package unsafex; a case is non-trivial when the value is non-empty (pointer identity is then checked)",
 		Assumptions: []string{"the pre-go1.21 variant is compiled with the installed toolchain through the overlay (its build constraint stripped); older toolchains are not installed"},
 		Run:         c20Enumerate,
 		Replay: func(c *mc.Ctx, sub string, raw json.RawMessage) {
-			replayAs(raw, func(k c20Case) { c20Run(c, k) })
+			replayAs(raw, func(k c20Case) {
+				f := c20Run
+				switch k.Kind {
+				case "stack":
+					f = c20Stack
+				case "huge":
+					f = c20Huge
+				}
+				if pi := mc.Try(func() { f(c, k) }); pi != nil {
+					c.Violate("conv", "C20|"+k.Kind+"|panic", fmt.Sprintf("%s case %+v: panic: %s at %s", k.Kind, k, pi.Msg, pi.Frame), k)
+				}
+			})
 		},
 		Post: func(tier string) (map[string]interface{}, []mc.Violation) {
 			alt := os.Getenv("VERIF_ALT_BIN")
